@@ -55,6 +55,94 @@ def typed_stores(prog):
     return out
 
 
+def asn4_fidelity(prog, rep, rule):
+    """Inside the AS_PATH / AGGREGATOR codecs the width decided by the session (parameter asn4) is what every nested
+    call receives."""
+    n = 0
+    bad = None
+    for f in prog.all_functions():
+        if f.module.name not in ('yabgp.message.attribute.aspath', 'yabgp.message.attribute.aggregator',
+                                 'yabgp.message.attribute.as4path', 'yabgp.message.attribute.as4aggregator') \
+                or 'asn4' not in f.params:
+            continue
+        for c in ast.walk(f.node):
+            if not isinstance(c, ast.Call) or not isinstance(c.func, ast.Attribute) or \
+                    src_of(c.func.value) not in ('cls', 'self') or f.cls is None:
+                continue
+            g = f.cls.find_method(c.func.attr)
+            if g is None or 'asn4' not in g.params:
+                continue
+            n += 1
+            pos = [p for p in g.params if p not in ('cls', 'self')].index('asn4')
+            arg = None
+            for k in c.keywords:
+                if k.arg == 'asn4':
+                    arg = k.value
+            if arg is None and pos < len(c.args):
+                arg = c.args[pos]
+            if arg is None or not (isinstance(arg, ast.Name) and arg.id == 'asn4'):
+                bad = bad or (f, c, arg)
+        # the parameter is not rebound either
+        for a in ast.walk(f.node):
+            if isinstance(a, (ast.Assign, ast.AugAssign)):
+                for t in (a.targets if isinstance(a, ast.Assign) else [a.target]):
+                    if isinstance(t, ast.Name) and t.id == 'asn4':
+                        bad = bad or (f, a, None)
+    key = 'asn4-fidelity'
+    if bad:
+        f, c, arg = bad
+        rep.bad(rule, key, file=f.file, line=c.lineno, func=f.qualname,
+                found='%s: the AS-number width handed on is %s, not the asn4 the session negotiated - the attribute is '
+                      'decoded in a mode the session does not use' % (src_of(c)[:70], src_of(arg) if arg is not None else 'rebound / defaulted'),
+                expected='asn4 passed through unchanged', key=key)
+    else:
+        rep.ok(rule, key, found='%d nested call(s) pass asn4 on' % n, nontrivial=bool(n))
+
+
+def four_octet_flag_rule(prog, rep, rule):
+    """_open_received switches to 4-octet encoding when the key 'four_bytes_as' is present in the decoded capability
+    set, whatever its value: the decoder may store the key only with the value True."""
+    n = 0
+    bad = None
+    for f in prog.all_functions():
+        if f.module.name != 'yabgp.message.open':
+            continue
+        for x in ast.walk(f.node):
+            val = None
+            if isinstance(x, ast.Assign) and isinstance(x.targets[0], ast.Subscript) and \
+                    isinstance(x.targets[0].slice, ast.Constant) and x.targets[0].slice.value == 'four_bytes_as' and \
+                    'capa_dict' in src_of(x.targets[0].value):
+                val = x.value
+            elif isinstance(x, ast.Call) and isinstance(x.func, ast.Attribute) and x.func.attr in ('setdefault',) and \
+                    'capa_dict' in src_of(x.func.value) and x.args and isinstance(x.args[0], ast.Constant) and \
+                    x.args[0].value == 'four_bytes_as':
+                val = x.args[1] if len(x.args) > 1 else ast.Constant(value=None)
+            elif isinstance(x, ast.Call) and isinstance(x.func, ast.Attribute) and x.func.attr == 'update' and \
+                    'capa_dict' in src_of(x.func.value) and 'four_bytes_as' in src_of(x):
+                val = ast.Constant(value=None)
+            if val is None:
+                continue
+            n += 1
+            if not (isinstance(val, ast.Constant) and val.value is True) and bad is None:
+                bad = (f, x)
+    # the consumer: presence test or value test?
+    orx = prog.func('yabgp.core.protocol.BGP._open_received')
+    by_presence = any(isinstance(c, ast.Compare) and "'four_bytes_as'" in src_of(c) and
+                      isinstance(c.ops[0], (ast.Eq, ast.In)) for c in ast.walk(orx.node))
+    key = 'four-bytes-as-flag'
+    if bad and by_presence:
+        f, x = bad
+        rep.bad(rule, key, file=f.file, line=x.lineno, func=f.qualname,
+                found='%s stores the key four_bytes_as with a value other than True, and BGP._open_received enables '
+                      '4-octet AS encoding on the presence of the key: a peer without the capability is then sent '
+                      '4-octet AS_PATHs' % src_of(x)[:80], expected='key present only when capability 65 was received',
+                key=key)
+    elif n:
+        rep.ok(rule, key, file='yabgp/message/open.py', found='%d store(s), all True' % n)
+    else:
+        rep.undecided(rule, key, found='no store of four_bytes_as in the OPEN decoder')
+
+
 def check(prog, rep, tier):
     rep.rule('R05.a', 'OPEN inputs: send_open builds the OPEN from version 4 and from locations whose only '
                       'writers are configuration code, constructors or a set-once initialiser')
@@ -63,10 +151,15 @@ def check(prog, rep, tier):
     rep.rule('R05.c', 'acceptance: the AS comparison reads the Open object after parse (4-octet value when '
                       'capability 65 is present); version / AS / hold-time tests dominate fsm.open_received '
                       '(C01 R01.c), session hold time = min(configured, proposed) (C03 R03.a)')
+    rep.rule('R05.e', 'AS-number width is the session\'s: the AS_PATH / AGGREGATOR decoders pass the asn4 argument on unchanged '
+                      '(no internal call with a constant or a different width), and the OPEN decoder stores the key '
+                      'four_bytes_as only with the value True (the protocol enables 4-octet mode on its presence)')
     rep.rule('R05.d', '4-octet mode: fourbytesas is False in a new protocol instance, becomes True only under a '
                       'condition over both the peer\'s and the local capability set, and is what Update '
                       'parse/construct receive')
     rep.assumptions += ['byte-level equality of OPENs across sessions for all configurations is not enumerated']
+    four_octet_flag_rule(prog, rep, 'R05.e')
+    asn4_fidelity(prog, rep, 'R05.e')
     facts = common.env_facts(prog)
     tab = common.get_table(prog, dot_dead=facts['dot_dead'])
     m = tab.model
